@@ -823,21 +823,34 @@ class Workspace(_ChannelSummaryMixin, dict):
         """
         workspace = copy.deepcopy(dict(channels=model.spec['channels']))
         workspace['version'] = schema.version
+
+        def _parameter_config(parset_name, paramset):
+            parameter = {
+                "bounds": [list(x) for x in paramset.suggested_bounds],
+                "inits": paramset.suggested_init,
+                "name": parset_name,
+            }
+            # per-component flags that differ are always the defaults derived
+            # from the channel data and are re-derived when the model is rebuilt
+            if len(set(paramset.suggested_fixed)) == 1:
+                parameter["fixed"] = paramset.suggested_fixed[0]
+            # keep the constraint term: auxiliary data, widths and rate factors
+            if paramset.constrained:
+                parameter["auxdata"] = list(paramset.auxdata)
+                if getattr(paramset, "sigmas", None):
+                    parameter["sigmas"] = list(paramset.sigmas)
+                if getattr(paramset, "factors", None):
+                    parameter["factors"] = list(paramset.factors)
+            return parameter
+
         workspace['measurements'] = [
             {
                 'name': name,
                 'config': {
-                    'poi': model.config.poi_name,
+                    # a measurement without parameter of interest has an empty POI name
+                    'poi': model.config.poi_name or '',
                     'parameters': [
-                        {
-                            "bounds": [
-                                list(x)
-                                for x in parset_spec['paramset'].suggested_bounds
-                            ],
-                            "inits": parset_spec['paramset'].suggested_init,
-                            "fixed": parset_spec['paramset'].suggested_fixed_as_bool,
-                            "name": parset_name,
-                        }
+                        _parameter_config(parset_name, parset_spec['paramset'])
                         for parset_name, parset_spec in model.config.par_map.items()
                     ],
                 },
